@@ -336,6 +336,11 @@ class Routine:
                         cls = ("MATCH", inner)
                     else:
                         cls = ("OTHER", sde)
+            elif isinstance(sde, tuple) and sde[0] == "call" and sde[1] in ("len", "len_of", "size", "ndim", "nrows", "ncols") and \
+                    bad_vals == [0] and not bad_other:
+                # `match x.len() { 0 => <bad>, n => … }`: the same decision as `x.len() == 0`
+                c, bad_when = classify_bool(("binop", "Eq", sde, ("const", "usize", 0)))
+                cls = c if bad_when else ("NEG",) + (c,)
             else:
                 cls = ("OTHER", sde)
             if kind == "panic":
@@ -1089,6 +1094,14 @@ def rule_r6(ctx, prog, rule="R6", only=None):
                             if cb is not None:
                                 re_ = strip(cb.return_expr())
                                 okc = isinstance(re_, tuple) and re_[0] == "call" and re_[1] == sp[1] and is_p(re_[3][0], 2)
+                if not okc and c[0] == "DELEGATE" and c[1] == sp[1] and len(c[2]) == 1:
+                    # loop form: `for column in array.axis_iter(..) { builders.push(B::from_array(&column)?) }` – the delegate is
+                    # applied to the item of an undisturbed traversal of the input, the first error leaves the routine
+                    from .facts import walk as _walk
+                    nxt = [y for y in _walk(strip(c[2][0])) if isinstance(y, tuple) and y[0] == "call" and y[1] == "next" and y[3]]
+                    if nxt:
+                        rb_, re_, chain_, bad_ = producer_chain(prog, x.body, nxt[0][3][0])
+                        okc = bad_ is None and is_p(re_, 1) and not rb_.is_closure
                 ob(i, "COLLECT-DELEGATE", okc, det, "first error of B::from_array over the columns is returned" if okc else "found %s" % det, x)
                 pos += 1
                 continue
